@@ -375,6 +375,11 @@ PeerConnection<type>::event_read() {
           m_down->throttle()->node_used_unthrottled(length);
 
           if (length == 0) {
+            // Nothing new on the socket, but messages handed over
+            // together with the handshake may already be complete.
+            while (read_message())
+              ; // Do nothing.
+
             m_down->buffer()->move_unused();
             return;
           }
